@@ -4,3 +4,4 @@ import MtailVerif.Props.C09
 import MtailVerif.Props.C21
 import MtailVerif.Props.C10
 import MtailVerif.Props.C12
+import MtailVerif.Props.C13
